@@ -751,6 +751,29 @@ func c131dec(c *an.Ctx, p *an.Prog) {
 			}
 		}
 		if !okErr {
+			// the other sound shape: the loop is left towards success only by its counter, and every iteration that
+			// continues has scanner.Scan()==true (Scan is true only while the scanner has no error)
+			allScan, nCont := true, 0
+			for _, h := range loopHeaders(fn) {
+				an.EnumPathsTo(fn, h, nil, h, func(it *an.PathState) {
+					if it.StopBlock == nil {
+						return
+					}
+					nCont++
+					okScan := false
+					for _, a := range it.Atoms {
+						if a.Op == "true" && a.A.IsCallTo("(*bufio.Scanner).Scan") {
+							okScan = true
+						}
+					}
+					if !okScan {
+						allScan = false
+					}
+				})
+			}
+			okErr = allScan && nCont > 0 && okCount
+		}
+		if !okErr {
 			bad = append(bad, "nil returned without scanner.Err()==nil")
 		}
 		if !okCount {
@@ -813,11 +836,22 @@ func c132(c *an.Ctx, p *an.Prog) {
 					if pt := e.Args[1]; pt.Op == "make" && pt.Args[0].IsConst("4") && callErrNilSingle(s, e.Res) {
 						okParts = true
 						parts = pt
+					} else if els, ok := sliceElems(s, pt); ok && len(els) == 4 && pt.Op == "slice" && callErrNilSingle(s, e.Res) {
+						okParts = true // a [4]string array handed over as arr[:]
+						parts = pt.Args[0]
 					}
 				}
 			}
 			for i, f := range []string{"login", "password"} {
-				if parts == nil || !nonEmptyKey(s, fmt.Sprintf("load(&%s[c:%d])", parts.K, i)) {
+				okNE := false
+				if parts != nil {
+					want := fmt.Sprintf("&%s[c:%d]", parts.K, i)
+					okNE = nonEmptyWhere(s, func(t *an.Term) bool {
+						// the cell parts[i], read after the decoder filled it
+						return t.Op == "load" && len(t.Args) == 1 && t.Args[0] != nil && t.Args[0].K == want
+					})
+				}
+				if !okNE {
 					bad = append(bad, "empty "+f+" is accepted")
 				}
 			}
